@@ -478,7 +478,7 @@ func runC04ConcurrentOnce(c *CaseCtx, r *rand.Rand) (res CaseResult) {
 		w.FailOn = func(fi, exec int, specFail bool) bool { return fi == 0 && exec >= 1 }
 		w.Delay = func(fi int) {
 			if fi == 0 {
-				time.Sleep(time.Duration(50+r.Intn(1)) * time.Microsecond)
+				time.Sleep(50 * time.Microsecond)
 			}
 		}
 		spec := posFn([]int{t[0]}, []int{t[1]})
